@@ -74,7 +74,12 @@ def _GenerateConstant(cv: LinearIR.ConstantValue) -> WebAssembly.Instruction:
     t = cv.Type
     if t.IsScalar():
         if isinstance(t, LinearIR.IntegerType):
-            if not (-(2**31) <= cv.Value < 2**32):
+            # An int is a signed, a uint an unsigned 32 bit number
+            if t.Unsigned:
+                inRange = 0 <= cv.Value < 2**32
+            else:
+                inRange = -(2**31) <= cv.Value < 2**31
+            if not inRange:
                 raise Exception(
                     f"Integer constant does not fit into 32 bit: {cv.Value}"
                 )
